@@ -1064,7 +1064,7 @@ func ruleR13() *Rule {
 			counts := map[string]int{}
 			for _, s := range sites {
 				res := extractOf(s.call, 0)
-				s.role = chunkRole(res)
+				s.role = chunkRole(c.p, res)
 				args := s.call.Call.Args
 				mode := describeChunkArg(c.p, args[0], 0)
 				card := describeChunkArg(c.p, args[1], 0)
@@ -1109,7 +1109,7 @@ func ruleR13() *Rule {
 }
 
 // chunkRole classifies where the chunk size flows.
-func chunkRole(v ssa.Value) string {
+func chunkRole(p *Program, v ssa.Value) string {
 	if v == nil {
 		return "unknown"
 	}
@@ -1150,6 +1150,22 @@ func chunkRole(v ssa.Value) string {
 				}
 			case *ssa.Phi:
 				visit(y, depth+1)
+			case *ssa.Convert:
+				visit(y, depth+1)
+			case *ssa.Return:
+				// handed back by a helper (`mergedTermChunkSize`): where its callers put it
+				for j, rv := range y.Results {
+					if rv != x {
+						continue
+					}
+					for _, cs := range p.callersOf(y.Parent()) {
+						if call, ok := cs.(*ssa.Call); ok && p.InZap(cs.Parent()) {
+							if res := extractOf(call, j); res != nil {
+								visit(res, depth+1)
+							}
+						}
+					}
+				}
 			}
 		}
 	}
